@@ -5,7 +5,12 @@
                             replayed on the real code by checks/c18.py)
      MC_SchedXfer_fix.cfg   repaired action (FixLock = FixAck = TRUE): every clause must hold
      MC_SchedXfer_live.cfg  liveness (every transfer ends) under fairness, FixLock = FixAck = FALSE
-     MC_SchedXfer_nozlib.cfg  ZlibDetects = FALSE: shows that NeverMixed rests on the checksum *)
+     MC_SchedXfer_nozlib.cfg  ZlibDetects = FALSE: shows that NeverMixed rests on the checksum
+     MC_SchedXfer_age.cfg   (thorough) as-is, three transfers (reads + writes), one edit, one ageing of the cached
+                            counter, one overheard RP|0006: ResultAsOfRead (freshness window in the contract) must hold
+     MC_SchedXfer_ageignored.cfg  SpecAgeIgnored (below): ResultAsOfRead must be refuted
+     MC_SchedXfer_scen_age.cfg    two transfers, one edit, one ageing: the clauses must hold, and every maximal behaviour
+                            is printed (scenario enumeration; each is executed with a sweep of elapsed times) *)
 EXTENDS SchedXfer
 
 \* keeps the state space finite and the counter small
@@ -19,4 +24,21 @@ View == <<G, late, ctr, cver, phase, cnt, ct, lastEnded, fuDone, lockAtMainEnd>>
 HSet  == {h[i] : i \in DOMAIN h}
 ViewH == <<View, HSet>>
 ScenarioOut == phase = "end" => PrintT(<<"H", h>>)
+
+\* Teeth of the freshness window (MC_SchedXfer_ageignored.cfg): a gateway whose cached change counter never expires
+\* (the window passes for the environment, Expired, but the gateway goes on believing its counter is fresh).
+\* ResultAsOfRead must be refuted: get, edit on the controller, ageing, unforced get -> the cached, outdated schedule.
+AgeIgnored ==
+    /\ phase = "main" /\ cnt.age < MaxAge /\ G.fresh /\ ~AnyActive
+    /\ cnt' = [cnt EXCEPT !.age = @ + 1]
+    /\ ct' = Expired(ct)
+    /\ h' = Append(h, Ev("age", 0, 0, 0, 0))
+    /\ UNCHANGED <<G, late, ctr, cver, phase, lastEnded, fuDone, lockAtMainEnd>>
+NextAgeIgnored == \/ \E z \in Zones, op \in {"get", "set"}, f \in BOOLEAN : StartXfer(z, op, IF op = "get" THEN f ELSE FALSE)
+                  \/ \E z \in Zones, o \in {"ok", "lost", "rlost"} : Exch(z, o)
+                  \/ \E z \in Zones, w \in {"cancel", "timeout"} : Abort(z, w)
+                  \/ \E m \in late : Late(m)
+                  \/ \E z \in Zones : Spin(z) \/ StuckTimeout(z) \/ Bump(z) \/ StartFu(z)
+                  \/ HeardVer \/ AgeIgnored \/ ToFollowUp \/ Finish \/ Over
+SpecAgeIgnored == Init /\ [][NextAgeIgnored]_vars
 =============================================================================
